@@ -88,8 +88,8 @@ Bin(op, a, b) ==                                  \* a, b are in the window
 Un(op, a) ==
     CASE op = "+"  -> Ok(a)
       [] op = "-"  -> Ok(-a)
-      [] op = "~"  -> Ok(-a - 1)
-      [] op = "^C" -> Ok(-a - 1)
+      [] op = "~"  -> Guard(-a - 1)
+      [] op = "^C" -> Guard(-a - 1)
 
 (* outcomes of the operands decide first: anything unknown stays unknown, an error stays an error.
    Modelling limit: what the assembler computes AFTER it has reported an error is unspecified, and a
